@@ -274,6 +274,11 @@ def content_of(kind, size, r):
             if pos + 6 <= size:
                 b[pos:pos + 6] = b"NEEDLE"
                 break
+        # a second needle that runs over a line break (the text is searched as a whole, not line by line)
+        for pos in (40, 8180, 33000):
+            if pos + 10 <= size and r.chance(2, 3):
+                b[pos:pos + 10] = b"LINE\nBREAK"
+                break
         return bytes(b)
     return b"\n" * size
 
@@ -299,20 +304,21 @@ def part_content(ctx, scratch, quick):
             try:
                 txt = data.decode("utf-8")
                 cont = bstr("NEEDLE" in txt)
+                cont2 = bstr("LINE\nBREAK" in txt)
             except UnicodeDecodeError:
-                cont = b""
+                cont = cont2 = b""
             want[nm.encode()] = [str(len(data)).encode(), str(data.count(b"\n")).encode(), hashlib.sha1(data).hexdigest().encode(),
                                  hashlib.sha256(data).hexdigest().encode(), hashlib.sha512(data).hexdigest().encode(),
-                                 hashlib.sha3_512(data).hexdigest().encode(), bstr(data[:2] == b"#!"), cont, bstr(len(data) == 0)]
+                                 hashlib.sha3_512(data).hexdigest().encode(), bstr(data[:2] == b"#!"), cont, cont2, bstr(len(data) == 0)]
     os.symlink(sorted(os.listdir(root))[3], os.path.join(root, "zz-link"))
-    cols = ["name", "size", "line_count", "sha1", "sha256", "sha512", "sha3", "is_shebang", "contains(NEEDLE)", "is_empty"]
+    cols = ["name", "size", "line_count", "sha1", "sha256", "sha512", "sha3", "is_shebang", "contains(NEEDLE)", "contains('LINE\nBREAK')", "is_empty"]
     q = "select %s from . into list" % ", ".join(cols)
     snap = corr.Snap(scratch, None, root=root)
     ctx.case(("content", q))
     # the snapshot carries file text only up to 4 KiB: the model answers CONTAINS for small files only, so the
     # correspondence uses the query without CONTAINS and the oracle judges all columns
     q2 = "select %s from . into list" % ", ".join(c for c in cols if not c.startswith("contains"))
-    corr.run_case(ctx, snap, [q2], fmt="list", ncols=len(cols) - 1, timeout=60)
+    corr.run_case(ctx, snap, [q2], fmt="list", ncols=len(cols) - 2, timeout=60)
     impl = common.run_cli([q], cwd=root, scratch=scratch, timeout=60)
     rows = rows_of(impl["out"], len(cols)) if impl["status"] == 0 else None
     if rows is None:
@@ -331,7 +337,7 @@ def part_content(ctx, scratch, quick):
         tgt = want[sorted(want)[3]] if len(want) > 3 else None
         if lk is not None and tgt is not None and sorted(os.listdir(root))[3].encode() in want:
             tw = want[sorted(os.listdir(root))[3].encode()]
-            if lk[1:8] != tw[1:8]:
+            if lk[1:9] != tw[1:9]:
                 ctx.oracle_fail("a link's content columns are not those of its target", {"argv": [q], "file": "zz-link"},
                                 detail={"got": [x.decode()[:40] for x in lk], "want": [x.decode()[:40] for x in tw]})
     ctx.count("content_files", len(want))
